@@ -37,24 +37,25 @@ BOUNDS = (
     "routes (constructor, from_wire of the model's wire form, from_text); quick ~670 specs / "
     "~1300 objects, thorough ~1190 / ~2400.  Exhaustive: all pairs within a class+type group "
     "(quick: one orientation, thorough: both), IN x CH pairs of a type, cross-type pairs inside "
-    "the families NS/CNAME/PTR/DNAME, MX/AFSDB/RT/KX, TXT/SPF (quick ~75 000 pairs, thorough "
-    "~520 000), sorted() per group.  No claim is made for absolute-against-relative pairs nor "
+    "the families NS/CNAME/PTR/DNAME, MX/AFSDB/RT/KX, TXT/SPF (quick ~51 000 pairs, thorough "
+    "~365 000), sorted() per group.  No claim is made for absolute-against-relative pairs nor "
     "for case variants of names outside RFC 4034 6.2 (NSEC).  Sets: dns.set.Set over a universe "
     "of names, ints, bytes and records with case-twin duplicates, Rdataset(MX), Rdataset(TXT), "
     "Rdataset(RRSIG covering A), RRset(A), ImmutableRdataset(MX); exhaustive: every pair of "
     "insertion sequences of length <= 3 over 4 (quick) / 5 (thorough) universe objects for Set "
-    "and of length <= 2 (quick) / 3 (thorough) over 4 objects for the TTL-carrying sets with 3 "
-    "TTL pairs, times 24 binary operations (9 copying, 10 in-place, 5 predicates), the aliased "
+    "(quick: all left operands, right operands of length <= 2 and a quarter of those of length "
+    "3) and of length <= 2 (quick) / 3 (thorough) over 4 objects for the TTL-carrying sets with "
+    "2-3 TTL pairs, times 24 binary operations (9 copying, 10 in-place, 5 predicates), the aliased "
     "form S op S, and 9 element operations (read/index/slice/in, add, remove, discard, pop, "
     "clear, copy, del item, del slice) per sequence and universe object; seeded longer pairs "
-    "(length <= 6, quick 1 500, thorough 40 000) incl. Rdataset x RRset x ImmutableRdataset "
+    "(length <= 6, quick 6 000, thorough 60 000) incl. Rdataset x RRset x ImmutableRdataset "
     "operands.  Refusal: class / type / covered-type intruders through add, update, "
     "union_update, |=, += and union on every base sequence of length <= 2 (RRSIG and SIG sets, "
     "explicit covers).  Singleton sweep: type codes 0-300 plus 120 seeded (quick) / all 65 536 "
     "(thorough) with generic records, real CNAME SOA DNAME NSEC MX NS TXT PTR records.  TTL: all "
     "add/update_ttl step lists of length <= 3 over 4 TTL values (incl. none) and 2-3 items.  "
     "Seeded operation sequences of 30 operations over three sets with aliasing, copies and "
-    "immutable snapshots: quick 1 500, thorough 40 000 per 5 implementations.  Immutability: 3 "
+    "immutable snapshots: quick 3 000, thorough 40 000 spread over 5 implementations.  Immutability: 3 "
     "instances of each of the 69 record classes discovered under dns/rdtypes (plus OPT, TKEY, "
     "TSIG by constructor), 11 kinds of names, generic records; 11 constructors fed lists, dicts "
     "and bytearrays that are mutated afterwards; 5 construction-context scenarios.  Not "
@@ -182,7 +183,7 @@ def run_sets_exhaustive(R):
         ("Rdataset", 4, 2 if q else 3),
         ("RRset", 4, 2 if q else 3),
         ("RdatasetRRSIG", 4, 2),
-        ("RdatasetTXT", 4, 2),
+        ("RdatasetTXT", 4, 1 if q else 2),
         ("ImmutableRdataset", 4, 2),
     ]
     for impl, nu, ml in plan:
@@ -191,7 +192,7 @@ def run_sets_exhaustive(R):
         ttls = _TTL_PAIRS if has_ttl else [(0, 0)]
         if impl in ("RdatasetRRSIG", "RdatasetTXT", "ImmutableRdataset") or (not q and ml == 3 and has_ttl):
             ttls = ttls[:2] if has_ttl else ttls
-        for sseq in seqs:
+        for sn, sseq in enumerate(seqs):
             if R.deadline():
                 R.note(f"deadline reached in exhaustive sets ({impl})")
                 return
@@ -201,7 +202,9 @@ def run_sets_exhaustive(R):
                     _un(R, impl, sseq, 300, op, arg)
             for op in _ALL_BIN:
                 _bin(R, impl, impl, sseq, (), 300, 300, op, alias=True)
-            for tseq in seqs:
+            for tn, tseq in enumerate(seqs):
+                if q and impl == "Set" and len(tseq) == 3 and (tn + sn) % 4:
+                    continue  # quick: a quarter of the length-3 right operands
                 for n, (ts, tt) in enumerate(ttls):
                     for op in _ALL_BIN:
                         if n and op in S.PRED_OPS:
@@ -212,7 +215,7 @@ def run_sets_exhaustive(R):
 
 def run_sets_seeded(R):
     rng = R.rng
-    n = 1500 if R.quick else 40000
+    n = 6000 if R.quick else 60000
     impls = ["Set", "Rdataset", "RRset", "RdatasetRRSIG", "RdatasetTXT", "ImmutableRdataset"]
     ttlv = [0, 1, 5, 60, 300, 86400, 2**31 - 1]
     for k in range(n):
@@ -300,7 +303,7 @@ def run_rdataset(R):
 
 
 def run_sequences(R):
-    n = 1500 if R.quick else 40000
+    n = 3000 if R.quick else 40000
     impls = ["Set", "Rdataset", "RRset", "RdatasetRRSIG", "RdatasetTXT"]
     for k in range(n):
         if k % 100 == 0 and R.deadline():
